@@ -237,6 +237,7 @@ pub fn profile_for(prop: &str, thorough: bool) -> Profile {
             p.class_a_permille = 150;
             p.knob_permille = 150;
             p.multi = true;
+            p.periodic2d_permille = 200;
             p.max_len = if thorough { 26 } else { 16 };
         }
         "C08" => {
